@@ -36,16 +36,25 @@ RULE = ("cases = random argument trees (attrs instances of 7 classes incl. inher
         "arguments) x api in {attr.asdict, attr.astuple, attrs.asdict, attrs.astuple} x recurse x "
         "retain_collection_types x filter in {None, include/exclude of types / names / Attributes, name predicate, "
         "value predicate} x dict_factory in {dict, OrderedDict} / tuple_factory in {tuple, list} x value_serializer in "
-        "{None, wrap everything, wrap scalars}; non-trivial = the argument holds a container or instance below the "
+        "{None, wrap everything, wrap scalars} x FAULTS (22% of the cases: the k-th call of value_serializer / filter / "
+        "dict_factory / tuple_factory raises TypeError / ValueError / KeyError / StopIteration / AttributeError / a "
+        "BaseException-only class, k over every existing position and the first missing one, only for calls that "
+        "complete without the fault) x HISTORY (7%: a fresh set of classes, or classes that are plain while warm-up "
+        "conversions see their instances directly in a field / in lists / as dict values / keys through all four "
+        "entry points and are then made attrs classes in place with attr.s(these=...), any subset) x a repeated "
+        "identical call (25%); exception type, history and repetition are harness-only variation the model does not "
+        "depend on; non-trivial = the argument holds a container or instance below the "
         "top level; distinct = distinct JSON case")
 ASSUMPTIONS = [
+    "faults are injected only into calls that complete without them (decided by a dry run of the real code at generation time), so the injected exception is the only one in play and whether the k-th call exists does not depend on evaluation order; the model counts the calls of each callback (verified for every k by the correspondence)",
+    "a StopIteration fault that leaves a generator frame arrives as RuntimeError caused by it (PEP 479, CPython): counted as the fault itself",
     "Python's hashability, == between hashable values, set(...) / dict(...) / namedtuple construction are modelled as small trusted functions (hashable, pyEq, pyColl, pyDict) shared by model and specification and diff-tested here",
     "the symbolic value_serializer (wraps its argument, or only scalars, recording the class of `inst` and the name of the attribute) stands for arbitrary serializers; serializers that return attrs instances or containers are not explored",
     "no object occurs twice in the argument (no aliasing, no cycles)",
     "the iteration order of a set is stable while it is not modified and is reproduced by rebuilding the set the same way (re-checked on every observation)",
 ]
 EXHAUSTIVE = {"quick": False, "thorough": False}
-BUDGET_S = {"quick": 38, "thorough": 400}
+BUDGET_S = {"quick": 34, "thorough": 400}
 PARALLEL = True
 
 LEVEL_TEXT = (
@@ -59,6 +68,8 @@ LEVEL_TEXT = (
     "unrepaired code, kept in Proofs/C13Old.lean, fails the specification on each), "
     "C13_sites_agree (asdict's own branches = _asdict_anything: the F10 regression as a theorem), C13_keys / "
     "C13_keys_nested, C13_recurse_off_identity, C13_no_instances_left, C13_container_shapes(+_field), "
+    "C13_fault_propagates (an exception raised by any callback makes the call raise it: nothing swallowed, no partial "
+    "result; model side: call counts per callback, tied for every k), C13_callback_counts_flat, "
     "C13_serializer_positions / C13_serializer_everywhere, C13_astuple_positional, C13_astuple_matches_asdict, "
     "C13_roundtrip_flat (cls(**asdict(x)) modelled directly as keyword binding for flat public classes, not through "
     "the C01 initializer model), C13_exclude_is_negation, C13_nextgen_retains, C13_pure (trivial in the model: "
@@ -68,7 +79,8 @@ LEVEL_TEXT = (
     "Correspondence: ~40k (quick) / ~370k (thorough) random and targeted trees to depth 4/5 x 4 entry points x "
     "recurse x retain x 5 filter kinds x factories x 3 serializer modes x argument-passing style; exact result "
     "structure (`type(x) is ...`, namedtuple type, dict vs OrderedDict, identity with the argument's objects), "
-    "exception kinds, snapshot, round trip. Readings fixed where the statement is silent are listed at the top of "
+    "exception kinds (identity of the injected fault object), snapshot, round trip, stability of a repeated call "
+    "and independence of history (observed, harness-only dimensions). Readings fixed where the statement is silent are listed at the top of "
     "Spec/C13.lean (serializer positions, dicts always through dict_factory in asdict, astuple depth, deep tuple keys, "
     "unbuildable results must raise, non-attrs arguments: only no-mutation)."
 )
@@ -80,49 +92,70 @@ class HarnessError(Exception):
     pass
 
 
-def _mk_classes():
-    @attr.s
-    class A:
-        x = attr.ib()
-        y = attr.ib()
-
-    @attr.s
-    class B(A):
-        z = attr.ib()
-
-    @attr.s
-    class P:
-        _p = attr.ib()
-        q = attr.ib(init=False)
-        r = attr.ib(default=None)
-
-    @attrs.define
-    class S:
-        a: int
-        x: object
-
-    @attr.s
-    class E:
-        pass
-
-    @attr.s(eq=False)
-    class H:
-        k = attr.ib()
-        x = attr.ib()
-
-        def __hash__(self):
-            return self.__dict__["_hv"]
-
-    @attr.s(eq=False)
-    class HB(H):
-        m = attr.ib()
-
-    return [A, B, P, S, E, H, HB]
+def _hv_hash(self):
+    return self.__dict__["_hv"]
 
 
-CLASSES = _mk_classes()
-CID = {c: i for i, c in enumerate(CLASSES)}
+# name, index of the base class, fields (name, attr.ib kwargs), attr.s kwargs, class body
+DEFS = [
+    ("A", None, [("x", {}), ("y", {})], {}, {}),
+    ("B", 0, [("z", {})], {}, {}),
+    ("P", None, [("_p", {}), ("q", {"init": False}), ("r", {"default": None})], {}, {}),
+    ("S", None, None, {}, {}),                      # attrs.define, slotted, annotated: a: int, x: object
+    ("E", None, [], {}, {}),
+    ("H", None, [("k", {}), ("x", {})], {"eq": False}, {"__hash__": _hv_hash}),
+    ("HB", 5, [("m", {})], {"eq": False}, {}),
+]
 HASHABLE_CLS = {5, 6}
+
+
+class Family:
+    """one set of the seven classes.  `late`: ids of classes that start as *plain* classes and are turned into
+    attrs classes in place (`attr.s(these=...)(cls)`) by `decorate()` — the way to enhance a class one does not own"""
+
+    def __init__(self, late=(), needed=None):
+        """`needed`: ids of the classes the case instantiates (others are taken from the fixed family: cheaper)"""
+        late = set(late) - {3}                       # a slotted class is a new class object: nothing in place
+        if needed is not None:
+            needed = set(needed)
+            if 1 in needed:
+                needed.add(0)
+            if 6 in needed:
+                needed.add(5)
+            late &= needed
+        if 0 in late:
+            late.add(1)                              # a subclass declared on top of a still plain base
+        if 5 in late:
+            late.add(6)
+        self.late = sorted(late)
+        self.classes = []
+        for i, (name, base, fields, ckw, body) in enumerate(DEFS):
+            bases = (self.classes[base],) if base is not None else (object,)
+            if needed is not None and i not in needed:
+                self.classes.append(CLASSES[i])
+                continue
+            if i == 3:
+                cls = attrs.define(type(name, bases, {"__annotations__": {"a": int, "x": object}}))
+            elif i in late:
+                cls = type(name, bases, dict(body))
+            else:
+                cls = attr.s(**ckw)(type(name, bases, dict(body, **{f: attr.ib(**kw) for f, kw in fields})))
+            self.classes.append(cls)
+        self.cid = {c: i for i, c in enumerate(self.classes)}
+        self.pending = list(self.late)
+
+    def decorate(self):
+        for i in self.pending:
+            name, base, fields, ckw, body = DEFS[i]
+            got = attr.s(these={f: attr.ib(**kw) for f, kw in fields}, **ckw)(self.classes[i])
+            if got is not self.classes[i]:
+                raise HarnessError("in-place decoration returned another class")
+        self.pending = []
+
+
+FAMILY0 = Family()
+CLASSES = FAMILY0.classes
+CID = FAMILY0.cid
 _ALL_ATTRS = []          # representatives of the == classes of Attribute objects
 CLS_FIELDS = []          # per class: list of FI dicts
 
@@ -137,6 +170,26 @@ def _sig(a):
 
 for _c in CLASSES:
     CLS_FIELDS.append([{"name": a.name, "sig": _sig(a), "init": bool(a.init)} for a in attr.fields(_c)])
+
+
+def _check_family(fam):
+    """a fresh / late-decorated family has the same fields (names, order, Attribute ==) as the fixed one"""
+    for i, c in enumerate(fam.classes):
+        if [a for a in attr.fields(c)] != [a for a in attr.fields(CLASSES[i])]:
+            raise HarnessError(f"family class {i} differs from the fixed family")
+
+
+_f = Family(late=range(7))
+_f.decorate()
+_check_family(_f)
+_check_family(Family())
+
+
+class W:
+    """holder for warm-up conversions (always an attrs class)"""
+
+
+W = attr.s(these={"a": attr.ib(), "b": attr.ib(), "c": attr.ib()})(W)
 
 _NT = {}
 
@@ -174,12 +227,14 @@ def _is_scalar(v):
     return v is None or type(v) in (int, str)
 
 
-def ser_wrap(inst, a, v):
-    return Ser(None if inst is None else CID.get(type(inst)), None if a is None else a.name, v)
+def serializers(fam):
+    def ser_wrap(inst, a, v):
+        return Ser(None if inst is None else fam.cid.get(type(inst)), None if a is None else a.name, v)
 
+    def ser_wrap_leaf(inst, a, v):
+        return ser_wrap(inst, a, v) if _is_scalar(v) else v
 
-def ser_wrap_leaf(inst, a, v):
-    return ser_wrap(inst, a, v) if _is_scalar(v) else v
+    return {"off": None, "wrap": ser_wrap, "wrapLeaf": ser_wrap_leaf}
 
 
 # ------------------------------------------------------------------------------------------------ trees <-> objects
@@ -206,24 +261,26 @@ def py_atom(v):
     return {"str": {"n": int(m.group(1))}}
 
 
-def build(node, reg):
-    """tree -> Python value; `reg` maps id(object) -> object for every container / instance built"""
+def build(node, reg, fam=FAMILY0):
+    """tree -> Python value; `reg` maps id(object) -> object for every container / instance built.
+    Instances of a class that is still plain (`fam.pending`) are made with `__new__` + setattr."""
     if "atom" in node:
         return atom_py(node["atom"]["a"])
     if "inst" in node:
         d = node["inst"]
-        cls = CLASSES[d["cls"]]
-        vals = [build(v, reg) for _, v in d["fields"]]
+        cls = fam.classes[d["cls"]]
+        vals = [build(v, reg, fam) for _, v in d["fields"]]
         names = [f["name"] for f, _ in d["fields"]]
         if names != [f["name"] for f in CLS_FIELDS[d["cls"]]]:
             raise HarnessError("instance fields do not match the class")
         kw, later = {}, []
+        raw = d["cls"] in fam.pending
         for f, v in zip(CLS_FIELDS[d["cls"]], vals):
-            if f["init"]:
+            if f["init"] and not raw:
                 kw[f["name"].lstrip("_")] = v
             else:
                 later.append((f["name"], v))
-        obj = cls(**kw)
+        obj = cls.__new__(cls) if raw else cls(**kw)
         for n, v in later:
             setattr(obj, n, v)
         if d["hsh"] is not None:
@@ -233,7 +290,7 @@ def build(node, reg):
     if "coll" in node:
         d = node["coll"]
         k = d["k"]
-        items = [build(v, reg) for v in d["items"]]
+        items = [build(v, reg, fam) for v in d["items"]]
         if k == "list":
             obj = list(items)
         elif k == "tuple":
@@ -253,72 +310,73 @@ def build(node, reg):
     d = node["dict"]
     obj = dict() if d["k"] == "dict" else collections.OrderedDict()
     for kk, vv in d["items"]:
-        key = build(kk, reg)
+        key = build(kk, reg, fam)
         if key in obj:
             raise HarnessError("equal dict keys in the case")
-        obj[key] = build(vv, reg)
+        obj[key] = build(vv, reg, fam)
     reg[id(obj)] = obj
     return obj
 
 
-def to_out(v, reg):
+def to_out(v, reg, fam=FAMILY0):
     """Python value -> `Out` tree JSON"""
     if type(v) is Ser:
-        return {"ser": {"cls": v.cls, "fld": v.fld, "v": to_out(v.v, reg)}}
+        return {"ser": {"cls": v.cls, "fld": v.fld, "v": to_out(v.v, reg, fam)}}
     if _is_scalar(v):
         return {"atom": {"a": py_atom(v)}}
     t = type(v)
     same = id(v) in reg
-    if t in CID:
-        c = CID[t]
+    if t in fam.cid:
+        c = fam.cid[t]
         return {"inst": {"same": same, "cls": c, "hsh": v.__dict__.get("_hv") if c in HASHABLE_CLS else None,
-                         "fields": [[f, to_out(getattr(v, f["name"]), reg)] for f in CLS_FIELDS[c]]}}
+                         "fields": [[f, to_out(getattr(v, f["name"]), reg, fam)] for f in CLS_FIELDS[c]]}}
     if t is list:
-        return {"coll": {"same": same, "k": "list", "items": [to_out(i, reg) for i in v]}}
+        return {"coll": {"same": same, "k": "list", "items": [to_out(i, reg, fam) for i in v]}}
     if t is tuple:
-        return {"coll": {"same": same and len(v) > 0, "k": "tuple", "items": [to_out(i, reg) for i in v]}}
+        return {"coll": {"same": same and len(v) > 0, "k": "tuple", "items": [to_out(i, reg, fam) for i in v]}}
     if t is set or t is frozenset:
-        return {"coll": {"same": same, "k": "set" if t is set else "frozenset", "items": [to_out(i, reg) for i in v]}}
+        return {"coll": {"same": same, "k": "set" if t is set else "frozenset", "items": [to_out(i, reg, fam) for i in v]}}
     nk = nt_key(t)
     if nk is not None:
         if nk[1] != len(v):
             raise HarnessError("namedtuple arity")
-        return {"coll": {"same": same, "k": {"ntuple": {"ty": nk[0]}}, "items": [to_out(i, reg) for i in v]}}
+        return {"coll": {"same": same, "k": {"ntuple": {"ty": nk[0]}}, "items": [to_out(i, reg, fam) for i in v]}}
     if t is dict or t is collections.OrderedDict:
         k = "dict" if t is dict else "odict"
         if not same and len(v) > 0 and all(type(x) is str and not _STR.match(x) for x in v):
-            return {"record": {"k": k, "items": [[n, to_out(x, reg)] for n, x in v.items()]}}
-        return {"dict": {"same": same, "k": k, "items": [[to_out(a, reg), to_out(b, reg)] for a, b in v.items()]}}
+            return {"record": {"k": k, "items": [[n, to_out(x, reg, fam)] for n, x in v.items()]}}
+        return {"dict": {"same": same, "k": k, "items": [[to_out(a, reg, fam), to_out(b, reg, fam)] for a, b in v.items()]}}
     return {"atom": {"a": {"str": {"n": 999999}}}}    # something that cannot come out of the model
 
 
-def snapshot(v):
+def snapshot(v, fam=FAMILY0):
     """structure + scalars + identity of every container (sets by sorted member snapshots)"""
     if _is_scalar(v):
         return ("a", repr(v))
     t = type(v)
-    if t in CID:
+    if t in fam.cid:
         extra = tuple(sorted((k, repr(x)) for k, x in getattr(v, "__dict__", {}).items() if k == "_hv"))
-        return ("i", id(v), t.__name__, extra, tuple(snapshot(getattr(v, f["name"])) for f in CLS_FIELDS[CID[t]]))
+        return ("i", id(v), t.__name__, extra,
+                tuple(snapshot(getattr(v, f["name"]), fam) for f in CLS_FIELDS[fam.cid[t]]))
     if isinstance(v, (set, frozenset)):
-        return ("s", id(v), t.__name__, tuple(sorted((snapshot(i) for i in v), key=repr)))
+        return ("s", id(v), t.__name__, tuple(sorted((snapshot(i, fam) for i in v), key=repr)))
     if isinstance(v, (list, tuple)):
-        return ("c", id(v), t.__name__, tuple(snapshot(i) for i in v))
+        return ("c", id(v), t.__name__, tuple(snapshot(i, fam) for i in v))
     if isinstance(v, dict):
-        return ("d", id(v), t.__name__, tuple((snapshot(a), snapshot(b)) for a, b in v.items()))
+        return ("d", id(v), t.__name__, tuple((snapshot(a, fam), snapshot(b, fam)) for a, b in v.items()))
     return ("?", repr(v))
 
 
-def ty_py(t):
+def ty_py(t, fam=FAMILY0):
     if isinstance(t, str):
         return {"int": int, "str": str, "noneType": type(None), "list": list, "tuple": tuple, "set": set,
                 "frozenset": frozenset, "dict": dict, "odict": collections.OrderedDict}[t]
     if "ntuple" in t:
         return nt_type(t["ntuple"]["ty"], t["ntuple"]["arity"])
-    return CLASSES[t["cls"]["id"]]
+    return fam.classes[t["cls"]["id"]]
 
 
-def filter_py(f):
+def filter_py(f, fam=FAMILY0):
     if f == "none":
         return None
     if f == "notNone":
@@ -328,35 +386,96 @@ def filter_py(f):
         return lambda a, v: a.name in names
     kind = "incl" if "incl" in f else "excl"
     d = f[kind]
-    what = [ty_py(t) for t in d["types"]] + list(d["names"]) + [_ALL_ATTRS[s] for s in d["sigs"]]
+    what = [ty_py(t, fam) for t in d["types"]] + list(d["names"]) + [_ALL_ATTRS[s] for s in d["sigs"]]
     return (attr.filters.include if kind == "incl" else attr.filters.exclude)(*what)
 
 
 def roundtrip_applies(case):
     v = case["value"]
-    if case["api"] != "asdict" or case["filter"] != "none" or case["ser"] != "off" or "inst" not in v:
+    if (case["api"] != "asdict" or case["filter"] != "none" or case["ser"] != "off" or case.get("fault") is not None
+            or "inst" not in v):
         return False
     d = v["inst"]
     return d["hsh"] is None and all("atom" in x and not f["name"].startswith("_") and f["init"] for f, x in d["fields"])
 
 
-def call(case, inst):
+class Abort(BaseException):
+    """a fault that `except Exception` does not catch"""
+
+
+FAULT_EXC = {"typeError": TypeError, "valueError": ValueError, "keyError": KeyError, "stopIteration": StopIteration,
+             "attributeError": AttributeError, "abort": Abort}
+
+
+class FaultBox:
+    """counts the calls of the callbacks; the k-th call at `site` raises a fresh exception of the chosen type"""
+
+    def __init__(self, fault, exc_name, wrap_all=False):
+        self.site = fault["site"] if fault else None
+        self.k = fault["k"] if fault else 0
+        self.exc_type = FAULT_EXC.get(exc_name, ValueError)
+        self.wrap_all = wrap_all
+        self.counts = {}
+        self.fired = False
+        self.exc = None
+
+    def wraps(self, site):
+        return self.wrap_all or site == self.site
+
+    def hit(self, site):
+        n = self.counts[site] = self.counts.get(site, 0) + 1
+        if site == self.site and n == self.k:
+            self.fired = True
+            self.exc = self.exc_type("injected fault")
+            raise self.exc
+
+    def is_mine(self, e):
+        if self.exc is None:
+            return False
+        if e is self.exc:
+            return True
+        # PEP 479: CPython turns a StopIteration that leaves a generator frame (the dict branches feed generator
+        # expressions to dict_factory) into RuntimeError(...) from it -- that is the fault, not something swallowed
+        return (self.exc_type is StopIteration and type(e) is RuntimeError and e.__cause__ is self.exc)
+
+
+def call(case, inst, fam=FAMILY0, box=None):
     cfg = case.get("cfg", {})
     explicit = cfg.get("explicit", True)
-    flt = filter_py(case["filter"])
+    box = box or FaultBox(None, None)
+    flt = filter_py(case["filter"], fam)
+    if box.wraps("filter") and flt is not None:
+        base_flt = flt
+
+        def flt(a, v):
+            box.hit("filter")
+            return base_flt(a, v)
     kw = {}
     if case["recurse"] is not True or explicit:
         kw["recurse"] = case["recurse"]
     if flt is not None or explicit:
         kw["filter"] = flt
     if case["api"] == "asdict":
-        ser = {"off": None, "wrap": ser_wrap, "wrapLeaf": ser_wrap_leaf}[case["ser"]]
+        ser = serializers(fam)[case["ser"]]
+        if box.wraps("ser") and ser is not None:
+            base_ser = ser
+
+            def ser(i, a, v):
+                box.hit("ser")
+                return base_ser(i, a, v)
         if ser is not None or explicit:
             kw["value_serializer"] = ser
         if case["ng"]:
             return attrs.asdict(inst, **kw)
-        if case["dictFactory"] != "dict" or explicit:
-            kw["dict_factory"] = dict if case["dictFactory"] == "dict" else collections.OrderedDict
+        df = dict if case["dictFactory"] == "dict" else collections.OrderedDict
+        if box.wraps("dictFactory"):
+            base_df = df
+
+            def df(*a):
+                box.hit("dictFactory")
+                return base_df(*a)
+        if df is not dict or explicit:
+            kw["dict_factory"] = df
         if case["retain"] or explicit:
             kw["retain_collection_types"] = case["retain"]
         if cfg.get("positional") and len(kw) == 5:
@@ -365,8 +484,15 @@ def call(case, inst):
         return attr.asdict(inst, **kw)
     if case["ng"]:
         return attrs.astuple(inst, **kw)
-    if case["tupleFactory"] != "tuple" or explicit:
-        kw["tuple_factory"] = tuple if case["tupleFactory"] == "tuple" else list
+    tf = tuple if case["tupleFactory"] == "tuple" else list
+    if box.wraps("tupleFactory"):
+        base_tf = tf
+
+        def tf(x):
+            box.hit("tupleFactory")
+            return base_tf(x)
+    if tf is not tuple or explicit:
+        kw["tuple_factory"] = tf
     if case["retain"] or explicit:
         kw["retain_collection_types"] = case["retain"]
     if cfg.get("positional") and len(kw) == 4:
@@ -374,26 +500,109 @@ def call(case, inst):
     return attr.astuple(inst, **kw)
 
 
-def observe(case):
-    reg = {}
-    inst = build(case["value"], reg)
-    before = snapshot(inst)
-    rt = None
+def _canon_sets(o):
+    """result JSON with the members of sets in a canonical order (to compare two runs)"""
+    if isinstance(o, dict):
+        d = {k: _canon_sets(v) for k, v in o.items()}
+        c = d.get("coll")
+        if isinstance(c, dict) and c.get("k") in ("set", "frozenset"):
+            c["items"] = sorted(c["items"], key=lambda x: json.dumps(x, sort_keys=True))
+        return d
+    if isinstance(o, list):
+        return [_canon_sets(x) for x in o]
+    return o
+
+
+def run_once(case, inst, reg, fam):
+    """one measured call -> (result JSON, fault fired, raw result or None)"""
+    box = FaultBox(case.get("fault"), case.get("cfg", {}).get("faultExc"))
     try:
-        res = call(case, inst)
+        res = call(case, inst, fam, box)
     except BaseException as e:  # noqa: BLE001
-        result = {"exc": {"e": common.exc_kind(e)}}
+        return {"exc": {"e": "fault" if box.is_mine(e) else common.exc_kind(e)}}, box.fired, None, box
+    return {"ok": {"v": to_out(res, reg, fam)}}, box.fired, res, box
+
+
+def warm_up(objs, fam):
+    """earlier conversions in which the same classes (and objects) play other roles: directly in a field, inside a
+    list, as a dict value / tuple member, through every entry point.  Exceptions are of no interest here."""
+    for o in objs[:5]:
+        hashable = type(o).__hash__ is not None
+        for f in (
+            lambda: attr.asdict(W(o, [o], {1: o})),
+            lambda: attr.astuple(W(o, (o,), [o])),
+            lambda: attrs.asdict(W((o,), o, None)),
+            lambda: attr.asdict(W(o, {o: 1} if hashable else None, o), retain_collection_types=True, recurse=False),
+            lambda: attrs.astuple(W(None, o, {2: [o]})),
+        ):
+            try:
+                f()
+            except Exception:  # noqa: BLE001
+                pass
+
+
+def observe(case):
+    cfg = case.get("cfg", {})
+    history = cfg.get("history", "fixed")
+    if history == "fixed":
+        fam = FAMILY0
     else:
-        result = {"ok": {"v": to_out(res, reg)}}
-        if roundtrip_applies(case):
+        needed = _classes_in(case["value"], set())
+        if history == "fresh":               # classes created after the process has converted many other things
+            fam = Family(needed=needed)
+        else:                                # plain classes that become attrs classes in place after a warm-up
+            fam = Family(late=cfg.get("late", range(7)), needed=needed)
+    reg = {}
+    inst = build(case["value"], reg, fam)
+    if history != "fixed":
+        objs = [o for o in reg.values() if type(o) in fam.cid]
+        warm_up(objs, fam)                   # plain classes are seen here while they are not attrs classes yet
+        fam.decorate()                       # ... and become attrs classes in place
+        if cfg.get("rewarm"):
+            warm_up(objs[::-1], fam)
+    before = snapshot(inst, fam)
+    rt = None
+    result, fired, res, _ = run_once(case, inst, reg, fam)
+    if roundtrip_applies(case):
+        if res is None:
+            rt = False
+        else:
             try:
                 rt = bool(type(inst)(**res) == inst)
             except Exception:  # noqa: BLE001
                 rt = False
-    after = snapshot(inst)
-    if "exc" in result and roundtrip_applies(case):
-        rt = False
-    return {"result": result, "argUnchanged": before == after, "roundtrip": rt}
+    stable = True
+    if cfg.get("twice"):
+        result2, fired2, _, _ = run_once(case, inst, reg, fam)
+        stable = fired2 == fired and _canon_sets(result2) == _canon_sets(result)
+    after = snapshot(inst, fam)
+    return {"result": result, "argUnchanged": before == after, "roundtrip": rt, "faultFired": fired, "stable": stable}
+
+
+def count_calls(case):
+    """dry run on the fixed family: (completes without exception, number of calls of every callback)"""
+    box = FaultBox(None, None, wrap_all=True)
+    ok = True
+    try:
+        call(dict(case, fault=None), build(case["value"], {}), FAMILY0, box)
+    except BaseException:  # noqa: BLE001
+        ok = False
+    return ok, box.counts
+
+
+def _classes_in(node, acc):
+    if "inst" in node:
+        acc.add(node["inst"]["cls"])
+        for _, v in node["inst"]["fields"]:
+            _classes_in(v, acc)
+    elif "coll" in node:
+        for v in node["coll"]["items"]:
+            _classes_in(v, acc)
+    elif "dict" in node:
+        for k, v in node["dict"]["items"]:
+            _classes_in(k, acc)
+            _classes_in(v, acc)
+    return acc
 
 
 # ------------------------------------------------------------------------------------------------ generation
@@ -552,14 +761,60 @@ def rand_opts(rng, value):
         "dictFactory": rng.choice(["dict", "dict", "odict"]),
         "tupleFactory": rng.choice(["tuple", "tuple", "list"]),
         "ser": rng.choice(["off", "off", "wrap", "wrapLeaf", "wrapLeaf"]) if api == "asdict" else "off",
-        "cfg": {"explicit": rng.random() < 0.6, "positional": rng.random() < 0.3},
+        "fault": None,
+        "cfg": {"explicit": rng.random() < 0.6, "positional": rng.random() < 0.3, "history": "fixed",
+                "twice": rng.random() < 0.25},
     }
+
+
+SITES = ["ser", "filter", "dictFactory", "tupleFactory"]
+
+
+def site_ok(case, site):
+    if site == "ser":
+        return case["api"] == "asdict" and case["ser"] != "off"
+    if site == "filter":
+        return case["filter"] != "none"
+    if site == "dictFactory":
+        return case["api"] == "asdict" and not case["ng"]
+    return case["api"] == "astuple" and not case["ng"]
+
+
+def add_fault(case, rng):
+    """the k-th call of one of the callbacks raises; only for calls that complete without the fault; k is drawn
+    over every position that exists plus the first one that does not"""
+    if "inst" not in case["value"]:
+        return
+    sites = [s for s in SITES if site_ok(case, s)]
+    if not sites:
+        return
+    ok, counts = count_calls(case)
+    if not ok:
+        return
+    site = rng.choice(sites)
+    n = counts.get(site, 0)
+    r = rng.random()
+    k = n + 1 if r < 0.12 else (n if r < 0.3 and n else rng.randint(1, max(n, 1)))
+    case["fault"] = {"site": site, "k": k}
+    case["cfg"]["faultExc"] = rng.choice(["typeError", "typeError", "valueError", "keyError", "stopIteration",
+                                          "attributeError", "abort"])
+
+
+def add_history(case, rng):
+    used = sorted(_classes_in(case["value"], set()) - {3})
+    r = rng.random()
+    if r < 0.3 or not used:
+        case["cfg"]["history"] = "fresh"
+    else:
+        case["cfg"]["history"] = "late"
+        case["cfg"]["late"] = used if r < 0.75 else sorted(rng.sample(used, rng.randint(1, len(used))))
+        case["cfg"]["rewarm"] = rng.random() < 0.4
 
 
 def targeted(g, rng):
     """small hand-shaped arguments around the places where the two conversion sites must agree"""
     v = g.value
-    pick = rng.randrange(12)
+    pick = rng.randrange(13)
     d = 2
     if pick == 0:    # namedtuples nested in collections / namedtuples (retain)
         inner = nt(rng.randrange(2), [v(d, "member") for _ in range(rng.choice([0, 2, 2, 3]))])
@@ -599,6 +854,13 @@ def targeted(g, rng):
         keys = g.distinct([fs, coll("tuple", items), nt(1, items)])
         rng.shuffle(keys)
         return dct("dict", [(k, g.atom()) for k in keys])
+    if pick == 11:   # something unbuildable (an instance as key / set member) below a tuple below field level
+        bad = rng.choice([dct("dict", [(g.inst(d, hashable=True), g.atom())]),
+                          coll("set", [g.inst(d, hashable=True)]),
+                          dct("odict", [(coll("tuple", [g.inst(d, hashable=True)]), g.atom())])])
+        tup = coll("tuple", [g.atom(), bad, g.atom()])
+        return rng.choice([coll("list", [tup]), dct("dict", [(g.atom(), tup)]), coll("tuple", [tup]),
+                           nt(0, [tup, g.atom()])])
     if pick == 10:   # empty containers of every kind
         return coll("list", [coll("tuple", []), coll("list", []), coll("set", []), coll("frozenset", []), nt(0, []),
                              dct("dict", []), dct("odict", []), g.inst(d, cls=4)])
@@ -626,8 +888,13 @@ def gen_cases(tier, rng):
         if r >= 0.4 and r < 0.5 and rng.random() < 0.7:
             case["filter"], case["ser"] = "none", "off"
             case["api"] = "asdict"
-        if _valid(case):
-            yield case
+        if not _valid(case):
+            continue
+        if rng.random() < 0.22:
+            add_fault(case, rng)
+        if rng.random() < 0.07:
+            add_history(case, rng)
+        yield case
 
 
 # ------------------------------------------------------------------------------------------------ reporting
@@ -694,6 +961,12 @@ def dist(case, obs):
         "outcome": "ok" if "ok" in res else res.get("exc", {}).get("e", "?"),
         "roundtrip": obs.get("roundtrip") if isinstance(obs, dict) else "?",
         "explicit_args": case.get("cfg", {}).get("explicit"),
+        "history": case.get("cfg", {}).get("history", "fixed"),
+        "twice": case.get("cfg", {}).get("twice", False),
+        "fault_site": (case.get("fault") or {}).get("site"),
+        "fault_fired": obs.get("faultFired") if isinstance(obs, dict) else "?",
+        "fault_exc": case.get("cfg", {}).get("faultExc") if case.get("fault") else None,
+        "fault_k": min((case.get("fault") or {}).get("k", 0), 9),
     }
     for k in _kinds(case["value"], set()):
         d["has_" + k] = True
@@ -748,12 +1021,25 @@ A_INT0 = A_int(0)
 
 
 def shrink(case):
+    cfg = case.get("cfg", {})
+    if case.get("fault") is not None:
+        yield dict(case, fault=None)
+        if case["fault"]["k"] > 1:
+            yield dict(case, fault=dict(case["fault"], k=case["fault"]["k"] - 1))
+    if cfg.get("history", "fixed") != "fixed":
+        yield dict(case, cfg=dict(cfg, history="fixed"))
+        if cfg.get("rewarm"):
+            yield dict(case, cfg=dict(cfg, rewarm=False))
+    if cfg.get("twice"):
+        yield dict(case, cfg=dict(cfg, twice=False))
     for k, v in (("filter", "none"), ("ser", "off"), ("ng", False), ("dictFactory", "dict"), ("tupleFactory", "tuple"),
                  ("retain", False), ("recurse", True)):
         if case[k] != v:
-            yield dict(case, **{k: v})
-    if case.get("cfg") != {"explicit": True, "positional": False}:
-        yield dict(case, cfg={"explicit": True, "positional": False})
+            c = dict(case, **{k: v})
+            if c.get("fault") is None or site_ok(c, c["fault"]["site"]):
+                yield c
+    if cfg.get("explicit") is not True or cfg.get("positional"):
+        yield dict(case, cfg=dict(cfg, explicit=True, positional=False))
     n = 0
     for s in _subtrees(case["value"]):
         c = dict(case, value=s)
@@ -765,6 +1051,22 @@ def shrink(case):
 
 
 def neighbours(case, rng):
+    for c in _neighbours(case, rng):
+        if c.get("fault") is not None and not site_ok(c, c["fault"]["site"]):
+            c = dict(c, fault=None)
+        yield c
+
+
+def _neighbours(case, rng):
+    cfg = case.get("cfg", {})
+    for h in ("fresh", "late"):
+        yield dict(case, cfg=dict(cfg, history=h, twice=True, rewarm=True))
+    if "inst" in case["value"]:
+        for site in SITES:
+            if site_ok(case, site):
+                for k in (1, 2, 3, 5):
+                    for e in ("typeError", "valueError", "abort"):
+                        yield dict(case, fault={"site": site, "k": k}, cfg=dict(cfg, faultExc=e))
     for api in ("asdict", "astuple"):
         for ng in (False, True):
             for recurse in (True, False):
